@@ -165,7 +165,7 @@ func serveOne(ln net.Listener, p hsPlan, out chan<- hsServerResult) {
 func genHsPlan(t *rapid.T, lbl string) hsPlan {
 	p := hsPlan{CloseAt: -1}
 	p.Status = rapid.SampledFrom([]string{"101 Switching Protocols", "101 Switching Protocols", "101 Switching Protocols", "101 Switching Protocols", "101 Web Socket Protocol Handshake", "200 OK", "400 Bad Request", "426 Upgrade Required"}).Draw(t, lbl+"status")
-	p.Upgrade = rapid.SampledFrom([]string{"websocket", "websocket", "websocket", "WebSocket", "WEBSOCKET", "", "h2c"}).Draw(t, lbl+"upgrade")
+	p.Upgrade = rapid.SampledFrom([]string{"websocket", "websocket", "websocket", "websocket", "WebSocket", "WEBSOCKET", "", "h2c", "websockets", "websocket2", "xwebsocket", "websocke", "WebSocket-Draft76"}).Draw(t, lbl+"upgrade")
 	p.UpName = rapid.SampledFrom([]string{"Upgrade", "upgrade", "UPGRADE"}).Draw(t, lbl+"upname")
 	p.Accept = rapid.SampledFrom([]string{"right", "right", "right", "right", "wrong", "missing"}).Draw(t, lbl+"accept")
 	p.AcName = rapid.SampledFrom([]string{"Sec-WebSocket-Accept", "sec-websocket-accept", "Sec-Websocket-Accept", "SEC-WEBSOCKET-ACCEPT"}).Draw(t, lbl+"acname")
@@ -262,7 +262,7 @@ func readClientFrame(c net.Conn) (rfc6455.Frame, error) {
 
 func TestC18_Handshake(t *testing.T) {
 	rec := evid.For("C18")
-	rec.SetRule("rapid: 1..3 handshakes on one Stream against a raw TCP server in the harness; response = status {101 (two reason phrases), 200, 400, 426} x Upgrade {websocket in 3 spellings, missing, h2c} x Sec-WebSocket-Accept {right, wrong, missing} x header-name case x separator after the colon {' ', '', two spaces, tab, trailing space} x header order permutation x extra headers x piggy-backed frames {none, 1..3 complete messages, last one cut after 1..6 bytes} x segmentation (1..3 cuts, 3 ms apart) x server close at byte j; blocking and asynchronous handshake; between handshakes the previous session may leave a queued Close(1002); oracle: request well-formed with a fresh 16-byte key and the caller's headers; success iff (101 and Upgrade: websocket and correct accept and response fully sent); failure => error and State()==Terminated; after success the messages read are exactly the piggy-backed ones followed by the later ones, and the first frame the server receives is the one the new session wrote; non-trivial = conforming response that is segmented or varied in case/whitespace with >=1 piggy-backed frame, or a second handshake on the same stream; distinct = hash of the plans")
+	rec.SetRule("rapid: 1..3 handshakes on one Stream against a raw TCP server in the harness; response = status {101 (two reason phrases), 200, 400, 426} x Upgrade {websocket in 3 spellings, missing, h2c, near misses: websockets, websocket2, xwebsocket, websocke, WebSocket-Draft76} x Sec-WebSocket-Accept {right, wrong, missing} x header-name case x separator after the colon {' ', '', two spaces, tab, trailing space} x header order permutation x extra headers x piggy-backed frames {none, 1..3 complete messages, last one cut after 1..6 bytes} x segmentation (1..3 cuts, 3 ms apart) x server close at byte j; blocking and asynchronous handshake; between handshakes the previous session may leave a queued Close(1002); oracle: request well-formed with a fresh 16-byte key and the caller's headers; success iff (101 and Upgrade: websocket and correct accept and response fully sent); failure => error and State()==Terminated; after success the messages read are exactly the piggy-backed ones followed by the later ones, and the first frame the server receives is the one the new session wrote; non-trivial = conforming response that is segmented or varied in case/whitespace with >=1 piggy-backed frame, or a second handshake on the same stream; distinct = hash of the plans")
 	segKnown := known.Listed("C18", "response-single-read")
 	vt.Check(t, 400, func(rt *rapid.T) {
 		ln, err := net.Listen("tcp", "127.0.0.1:0")
